@@ -78,9 +78,14 @@ type Clock struct {
 	Fixed bool // always return Base (multi-task runs: stored timestamps must not depend on the interleaving)
 }
 
+// TotalTicks counts NowFunc calls of all runs of this process (each call advances
+// a running simulated clock by one second).
+var TotalTicks int64
+
 //go:norace
 func (c *Clock) Now() time.Time {
 	c.n++
+	TotalTicks++
 	if c.Fixed {
 		return c.Base
 	}
